@@ -88,7 +88,7 @@ theorem answered_not_timed_out (s : CState) (now : Nat) (resp : Msg) (o : Out)
       by_cases e : k = resp.seq
       · rw [e, aget_adel_same] at hk1; cases hk1
       · rw [aget_adel_other _ _ _ e] at hk1; exact ⟨e, hk1, hov1⟩
-    have hu := updateSeg_store { s with store := adel s.store resp.seq } resp m0
+    have hu := updateSeg_store { s with store := adel s.store resp.seq } (track resp m0) m0
     have := hstore _ hu.1 hu.2 hk hov
     exact ⟨k, at_, m, s', this.1, this.2.1, this.2.2, ho⟩
 
